@@ -225,6 +225,8 @@ pub struct ChildSpec<'a> {
     pub timeout: Duration,
     /// send the child's stdout to this file (e.g. /dev/full) instead of capturing it
     pub stdout_to: Option<PathBuf>,
+    /// the child's standard input is this file, opened for reading (instead of a pipe)
+    pub stdin_file: Option<PathBuf>,
 }
 
 pub fn run_child(env: &WorkerEnv, bin: &str, spec: ChildSpec) -> Result<ChildResult, String> {
@@ -255,6 +257,10 @@ pub fn run_child(env: &WorkerEnv, bin: &str, spec: ChildSpec) -> Result<ChildRes
     if let Some(p) = &spec.stdout_to {
         let f = std::fs::OpenOptions::new().write(true).open(p).map_err(|e| format!("open {}: {e}", p.display()))?;
         cmd.stdout(Stdio::from(f));
+    }
+    if let Some(p) = &spec.stdin_file {
+        let f = std::fs::File::open(p).map_err(|e| format!("open {}: {e}", p.display()))?;
+        cmd.stdin(Stdio::from(f));
     }
     die_with_parent(&mut cmd);
     let mut child = cmd.spawn().map_err(|e| format!("spawn {}: {e}", exe.display()))?;
